@@ -4,7 +4,10 @@ import OdxVerif.Proofs.CompKeyBase
       bit position): placeholder (`encodeKeyPlaceholder_*`), final value (`encodeDop_key` = `cellStep`), decoder
       (`decodeParam_key` = the decoder of `Pair.hole`);
     * a VALUE parameter over a PARAM-LENGTH-INFO-TYPE DOP, byte field or string (`PLUser`): `encodeParam` / `decodeParam` are the
-      payload pair `Pair.bytesAt` at the parameter's position, given what `length_keys` says about the key.
+      payload pair `Pair.bytesAt` at the parameter's position, given what `length_keys` says about the key;
+    * a VALUE parameter over a PARAM-LENGTH-INFO-TYPE DOP of any of the nine leaf kinds with at least one bit (`Obj.toPLParam`,
+      any bit position / encoding / byte order): `encodeParam` / `decodeParam` are those of the standard-length object with
+      the key's number of bits (`Obj.encodeParam_pl`, `Obj.decodeParam_pl`).
     Core Lean only. -/
 set_option linter.unusedSimpArgs false
 namespace OdxVerif.Codec
@@ -193,5 +196,115 @@ theorem PLUser.decodeParam_eq (u : PLUser) (h : u.ok) (fuel : Nat) (d : DecState
     simp only [PLUser.toParam, PLUser.dct, hb, decodeParam, decodeDop, decodeDct, bind, pure, run_bind, run_modifyS, run_pure, run_getS,
       posOf, Option.getD_none, hk, hneg, if_false, htn, h2, run_ite]
     simp only [PLUser.pair, Pair.atPos, Pair.bytesAt, posOf, hb]
+
+/-! ### PARAM-LENGTH-INFO-TYPE objects of any leaf kind (`Obj`), at any bit position: once the key is known (or derived) they are
+    the standard-length object of that many bits -/
+
+
+/-- the bit length `ParamLengthInfoType.encode_into_pdu` derives from the value when the key was not specified (all base types) -/
+def plDerived (bt : BaseType) (v : IVal) : Option Int :=
+  match bt, v with
+  | .bytefield, .bytes x => some (8 * x.length : Int)
+  | .ascii, .str x => some (8 * x.length : Int)
+  | .utf8, .str x => some (8 * x.length : Int)
+  | .unicode2, .str x => some (16 * x.length : Int)
+  | .int32, .int i => some ((((bitLength i.natAbs + 1 + 7) / 8) * 8 : Nat) : Int)
+  | .uint32, .int i => some ((((bitLength i.natAbs + 7) / 8) * 8 : Nat) : Int)
+  | .float32, _ => some 32
+  | .float64, _ => some 64
+  | _, _ => none
+
+/-- a VALUE parameter over a PARAM-LENGTH-INFO-TYPE DOP whose object is `o` once the key says `o.bl` bits -/
+def Obj.toPLParam (o : Obj) (key : String) : Param :=
+  .mk o.name o.bytePos o.bitPos (.value (.simple (.paramLen o.bt o.enc o.hl key) o.bt .identical) none)
+
+theorem encodeDct_paramLen_known (bt : BaseType) (enc : Option Enc) (hl : Bool) (key : String) (bl : Nat) (v : IVal)
+    (s : EncState) (st : Bool) (h : lookup key s.lengthKeys = some (bl : Int)) :
+    encodeDct (.paramLen bt enc hl key) v s st = encodeDct (.std bt enc hl bl none false) v s st := by
+  have hneg : ¬ ((bl : Int) < 0) := by omega
+  simp only [encodeDct, bind, run_bind, run_getS, h, pure, run_pure, hneg, if_false, Int.toNat_natCast, run_ite]
+
+theorem encodeDct_paramLen_derived (bt : BaseType) (enc : Option Enc) (hl : Bool) (key : String) (bl : Nat) (v : IVal)
+    (s : EncState) (st : Bool) (h : lookup key s.lengthKeys = none) (hd : plDerived bt v = some (bl : Int)) :
+    encodeDct (.paramLen bt enc hl key) v s st =
+      encodeDct (.std bt enc hl bl none false) v { s with lengthKeys := insertKV key (bl : Int) s.lengthKeys } st := by
+  have hneg : ¬ ((bl : Int) < 0) := by omega
+  cases bt <;> cases v <;> simp only [plDerived, Option.some.injEq, reduceCtorEq] at hd <;>
+    simp only [encodeDct, bind, run_bind, run_getS, h, pure, run_pure, run_modifyS, hd, hneg, if_false, Int.toNat_natCast, run_ite]
+
+theorem decodeDct_paramLen_known (bt : BaseType) (enc : Option Enc) (hl : Bool) (key : String) (bl : Nat)
+    (d : DecState) (st : Bool) (h : lookup key d.lengthKeys = some (bl : Int)) :
+    decodeDct (.paramLen bt enc hl key) d st = decodeDct (.std bt enc hl bl none false) d st := by
+  have hneg : ¬ ((bl : Int) < 0) := by omega
+  simp only [decodeDct, bind, run_bind, run_getS, h, hneg, if_false, Int.toNat_natCast, run_ite]
+
+/-- the dictionary behind an object user -/
+def keysAfterObj (key : String) (bl : Nat) (L : List (String × Int)) : List (String × Int) :=
+  match lookup key L with
+  | some _ => L
+  | none => insertKV key (bl : Int) L
+
+theorem encStep_lengthKeys (o : Obj) (v : IVal) (s : EncState) : (encStep o v s).lengthKeys = s.lengthKeys := rfl
+theorem encStep_keyPos (o : Obj) (v : IVal) (s : EncState) : (encStep o v s).keyPos = s.keyPos := rfl
+
+theorem Obj.encodeParam_pl (o : Obj) (ho : o.ok) (v : IVal) (hr : o.inRange v) (key : String) (fuel : Nat) (s : EncState)
+    (hk : lookup key s.lengthKeys = some (o.bl : Int) ∨
+          (lookup key s.lengthKeys = none ∧ plDerived o.bt v = some (o.bl : Int))) :
+    encodeParam (fuel + 2) (o.toPLParam key) (some (.atom v)) s true =
+      .ok ((), encStep o v { s with lengthKeys := keysAfterObj key o.bl s.lengthKeys }) := by
+  have hobj := encodeParam_obj o ho v hr fuel { s with lengthKeys := keysAfterObj key o.bl s.lengthKeys }
+  rw [← hobj]
+  have hta : typeAdmits o.bt v = true := by
+    cases hta : typeAdmits o.bt v with
+    | true => rfl
+    | false =>
+      exfalso
+      simp only [Obj.toParam, encodeParam, encodeDop, bind, run_bind, run_modifyS, run_ite, hta, Bool.not_false, if_true,
+        run_raise] at hobj
+      cases hobj
+  rcases hk with hk | ⟨hk, hd⟩
+  · have hL : keysAfterObj key o.bl s.lengthKeys = s.lengthKeys := by simp only [keysAfterObj, hk]
+    rw [hL]
+    cases hb : o.bytePos with
+    | none =>
+      simp only [Obj.toPLParam, Obj.toParam, hb, encodeParam, encodeDop, bind, run_bind, run_modifyS, run_ite, hta, Bool.not_true,
+        Bool.false_eq_true, if_false]
+      rw [encodeDct_paramLen_known o.bt o.enc o.hl key o.bl v
+        { s with cursorByte := s.cursorByte, cursorBit := o.bitPos.getD 0 } true hk]
+    | some b =>
+      simp only [Obj.toPLParam, Obj.toParam, hb, encodeParam, encodeDop, bind, run_bind, run_modifyS, run_ite, hta, Bool.not_true,
+        Bool.false_eq_true, if_false]
+      rw [encodeDct_paramLen_known o.bt o.enc o.hl key o.bl v
+        { s with cursorByte := s.origin + b, cursorBit := o.bitPos.getD 0 } true hk]
+  · have hL : keysAfterObj key o.bl s.lengthKeys = insertKV key (o.bl : Int) s.lengthKeys := by simp only [keysAfterObj, hk]
+    rw [hL]
+    cases hb : o.bytePos with
+    | none =>
+      simp only [Obj.toPLParam, Obj.toParam, hb, encodeParam, encodeDop, bind, run_bind, run_modifyS, run_ite, hta, Bool.not_true,
+        Bool.false_eq_true, if_false]
+      rw [encodeDct_paramLen_derived o.bt o.enc o.hl key o.bl v
+        { s with cursorByte := s.cursorByte, cursorBit := o.bitPos.getD 0 } true hk hd]
+    | some b =>
+      simp only [Obj.toPLParam, Obj.toParam, hb, encodeParam, encodeDop, bind, run_bind, run_modifyS, run_ite, hta, Bool.not_true,
+        Bool.false_eq_true, if_false]
+      rw [encodeDct_paramLen_derived o.bt o.enc o.hl key o.bl v
+        { s with cursorByte := s.origin + b, cursorBit := o.bitPos.getD 0 } true hk hd]
+
+theorem Obj.decodeParam_pl (o : Obj) (ho : o.ok) (key : String) (fuel : Nat) (d : DecState)
+    (hlen : o.pos d.origin d.cursorByte + o.k ≤ d.msg.length)
+    (hdec : o.decodes (readNum d.msg (o.pos d.origin d.cursorByte) o.k o.hl / 2 ^ o.bp % 2 ^ o.bl))
+    (hk : lookup key d.lengthKeys = some (o.bl : Int)) :
+    decodeParam (fuel + 2) (o.toPLParam key) d true = .ok (.atom (decStep o d).1, (decStep o d).2) := by
+  rw [← decodeParam_obj o ho fuel d hlen hdec]
+  cases hb : o.bytePos with
+  | none =>
+    simp only [Obj.toPLParam, Obj.toParam, hb, decodeParam, decodeDop, bind, run_bind, run_modifyS]
+    rw [decodeDct_paramLen_known o.bt o.enc o.hl key o.bl
+      { d with cursorByte := d.cursorByte, cursorBit := o.bitPos.getD 0 } true hk]
+  | some b =>
+    simp only [Obj.toPLParam, Obj.toParam, hb, decodeParam, decodeDop, bind, run_bind, run_modifyS]
+    rw [decodeDct_paramLen_known o.bt o.enc o.hl key o.bl
+      { d with cursorByte := d.origin + b, cursorBit := o.bitPos.getD 0 } true hk]
+
 
 end OdxVerif.Codec
